@@ -1,6 +1,15 @@
 //! C18: (a) a client program that requires Send + Sync of every public value type — rustc is the
 //! judge; (b) concurrent expansion of shared states compared with sequential expansion.
 //!
+//! The reference ("sequential expansion") of a query on a state is its value on a freshly built,
+//! never queried twin of that state, computed on a brand-new thread — one twin and one thread per
+//! query, so that nothing computed earlier (inside the state, in the thread, in the process) can
+//! have influenced it.  The workers then query SHARED states on long-lived threads, every worker in
+//! its own order of states and its own order of queries, with families of look-alike states
+//! (same squares occupied but another piece type, other side to move, other history, other step)
+//! visited back to back.  Any memo that is filled by one query and read by another, keyed on part
+//! of a state, or raced at first use shows as a difference from the reference.
+//!
 //! sendsync <seed> <threads> <states>
 #[path = "../enc.rs"]
 #[allow(dead_code)]
@@ -11,6 +20,7 @@ mod util;
 
 use arimaa_engine_step::*;
 use enc::*;
+use std::sync::atomic::{AtomicUsize, Ordering};
 use util::*;
 
 fn assert_send_sync<T: Send + Sync>() {}
@@ -31,16 +41,162 @@ fn client_requires_send_sync() {
     assert_send_sync::<Terminal>();
 }
 
-/// Everything an expander observes of one state, as text.
-fn expand(s: &GameState) -> String {
-    let mut out = observe(s);
-    for a in s.valid_actions() {
-        let n = s.take_action(&a);
-        out.push_str(&format!("|{}>{}", enc_action(&a), enc_state(&n, 0)));
-        out.push_str(term_str(&n.is_terminal()));
-        let c = n.clone();
-        out.push_str(&format!("{:x}", c.transposition_hash()));
-        drop(c);
+/// how to build a state from nothing: a start text (empty = `GameState::initial()`) and actions
+#[derive(Clone)]
+struct Recipe {
+    start: String,
+    path: Vec<Action>,
+}
+
+impl Recipe {
+    fn build(&self) -> GameState {
+        let mut s: GameState = if self.start.is_empty() { GameState::initial() } else { self.start.parse().expect("recipe start") };
+        for a in &self.path {
+            s = s.take_action(a);
+        }
+        s
+    }
+}
+
+const NQ: usize = 9;
+
+fn sorted(v: Vec<Action>) -> String {
+    let mut w: Vec<String> = v.iter().map(enc_action).collect();
+    w.sort();
+    w.join(",")
+}
+
+/// the k-th query of an expander, as text
+fn query(s: &GameState, k: usize) -> String {
+    match k {
+        0 => sorted(s.valid_actions()),
+        1 => sorted(s.valid_actions_no_rep()),
+        2 => term_str(&s.is_terminal()).to_string(),
+        3 => format!("{}", s.can_pass(false)),
+        4 => format!("{}", s.can_pass(true)),
+        5 => term_str(&s.has_move(s.piece_board())).to_string(),
+        6 => format!("{:016x}", s.transposition_hash()),
+        7 => {
+            // successors through the offered list
+            let mut out = String::new();
+            for a in s.valid_actions() {
+                let n = s.take_action(&a);
+                out.push_str(&format!("|{}>{}", enc_action(&a), enc_state(&n, 0)));
+                out.push_str(term_str(&n.is_terminal()));
+                let c = n.clone();
+                out.push_str(&format!("{:x}", c.transposition_hash()));
+                drop(c);
+            }
+            out
+        }
+        _ => {
+            // successors through the rule-only list, their own lists, previews, printing
+            let mut out = format!("{}", s);
+            for a in s.valid_actions_no_rep() {
+                out.push_str(&format!("|{:?}", s.trapped_animal_for_action(&a).map(|(q, p, g)| (q.index(), piece_letter(p), g))));
+                let n = s.take_action(&a);
+                out.push_str(&sorted(n.valid_actions()));
+            }
+            out
+        }
+    }
+}
+
+/// value of every query on a never-queried twin, each on its own new thread
+fn reference(r: &Recipe) -> Vec<String> {
+    (0..NQ)
+        .map(|k| {
+            let rr = r.clone();
+            std::thread::spawn(move || query(&rr.build(), k)).join().expect("reference thread")
+        })
+        .collect()
+}
+
+fn perm(seed: usize) -> [usize; NQ] {
+    let mut p = [0usize; NQ];
+    for (i, x) in p.iter_mut().enumerate() {
+        *x = i;
+    }
+    let mut z = seed as u64 ^ 0x9E3779B97F4A7C15;
+    for i in (1..NQ).rev() {
+        z = z.wrapping_mul(6364136223846793005).wrapping_add(1442695040888963407);
+        let j = (z >> 33) as usize % (i + 1);
+        p.swap(i, j);
+    }
+    p
+}
+
+fn diagram_of(s: &GameState) -> String {
+    format!("{}", s)
+}
+
+/// look-alikes of a play-phase state: same squares occupied with one piece of another type (same
+/// colour), the other side to move, another move number; the same board after a detour (other
+/// history); the states one step into the turn (other step / pending status)
+fn family(base: &Recipe, rng: &mut Rng) -> Vec<Recipe> {
+    let s = base.build();
+    let mut out = vec![base.clone()];
+    if !s.is_play_phase() || s.current_step() != 0 {
+        return out;
+    }
+    let text = diagram_of(&s);
+    let lines: Vec<&str> = text.lines().collect();
+    // retype one piece (keep the case = colour); reject what does not parse
+    let letters = ['e', 'm', 'h', 'd', 'c', 'r'];
+    let cells: Vec<(usize, usize, char)> = lines
+        .iter()
+        .enumerate()
+        .skip(2)
+        .take(8)
+        .flat_map(|(li, l)| l.char_indices().filter(|(ci, c)| *ci >= 2 && c.is_ascii_alphabetic() && *c != 'x').map(move |(ci, c)| (li, ci, c)).collect::<Vec<_>>())
+        .collect();
+    for _ in 0..3 {
+        if cells.is_empty() {
+            break;
+        }
+        let (li, ci, c) = *rng.pick(&cells);
+        let nl = *rng.pick(&letters);
+        let nc = if c.is_ascii_uppercase() { nl.to_ascii_uppercase() } else { nl };
+        if nc == c {
+            continue;
+        }
+        let mut ls: Vec<String> = lines.iter().map(|x| x.to_string()).collect();
+        ls[li].replace_range(ci..ci + 1, &nc.to_string());
+        let t = ls.join("\n") + "\n";
+        if t.parse::<GameState>().is_ok() {
+            out.push(Recipe { start: t, path: vec![] });
+        }
+    }
+    // the same diagram parsed (no history), other side to move, other move number
+    out.push(Recipe { start: text.clone(), path: vec![] });
+    let head = lines[0].to_string();
+    let (num, side) = head.split_at(head.len() - 1);
+    let other = if side == "g" { "s" } else { "g" };
+    for h in [format!("{}{}", num, other), format!("{}{}", num.parse::<usize>().unwrap_or(1) + 1, side)] {
+        let t = std::iter::once(h.as_str()).chain(lines.iter().skip(1).cloned()).collect::<Vec<_>>().join("\n") + "\n";
+        if t.parse::<GameState>().is_ok() {
+            out.push(Recipe { start: t, path: vec![] });
+        }
+    }
+    // one and two steps into the turn, and the detour "step, pass, <opponent: step, pass>" where possible
+    let va = s.valid_actions();
+    let moves: Vec<Action> = va.iter().cloned().filter(|a| matches!(a, Action::Move(_, _))).collect();
+    for _ in 0..2 {
+        if moves.is_empty() {
+            break;
+        }
+        let a = *rng.pick(&moves);
+        let mut p = base.path.clone();
+        p.push(a);
+        let r1 = Recipe { start: base.start.clone(), path: p.clone() };
+        let s1 = r1.build();
+        out.push(r1);
+        let va1 = s1.valid_actions();
+        if !va1.is_empty() {
+            let b = *rng.pick(&va1);
+            p.push(b);
+            out.push(Recipe { start: base.start.clone(), path: p });
+        }
     }
     out
 }
@@ -52,10 +208,14 @@ fn main() {
     let threads: usize = argv.get(2).and_then(|x| x.parse().ok()).unwrap_or(8);
     let nstates: usize = argv.get(3).and_then(|x| x.parse().ok()).unwrap_or(300);
     let mut rng = Rng::new(seed);
-    // states from random playouts (a shared history list behind every one of them)
-    let mut states: Vec<GameState> = vec![];
-    while states.len() < nstates {
+    // recipes from random playouts (a shared history list behind every state), some of them with
+    // repetition-rich histories (steps undone on the next turn)
+    let mut recipes: Vec<Recipe> = vec![];
+    while recipes.len() < nstates {
         let mut s = GameState::initial();
+        let mut path: Vec<Action> = vec![];
+        let shuttle = rng.chance(1, 3);
+        let mut last_own: [Option<Action>; 2] = [None, None];
         for _ in 0..(32 + rng.below(120)) {
             if s.is_terminal().is_some() {
                 break;
@@ -64,31 +224,88 @@ fn main() {
             if va.is_empty() {
                 break;
             }
-            s = s.take_action(rng.pick(&va));
+            let side = s.is_p1_turn_to_move() as usize;
+            let mut a = *rng.pick(&va);
+            if shuttle && s.is_play_phase() {
+                if s.current_step() >= 1 && va.contains(&Action::Pass) {
+                    a = Action::Pass;
+                } else if let Some(Action::Move(q, d)) = last_own[side] {
+                    // undo the previous own step if it is offered
+                    let (dn, back) = match d {
+                        Direction::Up => (-8i32, Direction::Down),
+                        Direction::Down => (8, Direction::Up),
+                        Direction::Left => (-1, Direction::Right),
+                        Direction::Right => (1, Direction::Left),
+                    };
+                    let to = q.index() as i32 + dn;
+                    if (0..64).contains(&to) {
+                        let u = Action::Move(Square::from_index(to as u8), back);
+                        if va.contains(&u) {
+                            a = u;
+                        }
+                    }
+                }
+                if let Action::Move(_, _) = a {
+                    last_own[side] = Some(a);
+                }
+            }
+            s = s.take_action(&a);
+            path.push(a);
             if rng.chance(1, 6) {
-                states.push(s.clone());
+                recipes.push(Recipe { start: String::new(), path: path.clone() });
             }
         }
     }
-    states.truncate(nstates);
-    let sequential: Vec<String> = states.iter().map(expand).collect();
-    let mismatches = std::sync::atomic::AtomicUsize::new(0);
-    let expansions = std::sync::atomic::AtomicUsize::new(0);
+    recipes.truncate(nstates);
+    // families of look-alikes for a quarter of them, kept adjacent
+    let mut all: Vec<Recipe> = vec![];
+    for (i, r) in recipes.iter().enumerate() {
+        if i % 4 == 0 {
+            all.extend(family(r, &mut rng));
+        } else {
+            all.push(r.clone());
+        }
+    }
+    let refs: Vec<Vec<String>> = all.iter().map(reference).collect();
+    // the shared states: built once, never queried before the workers start
+    let states: Vec<GameState> = all.iter().map(|r| r.build()).collect();
+    let mismatches = AtomicUsize::new(0);
+    let expansions = AtomicUsize::new(0);
+    let first_bad: std::sync::Mutex<Option<String>> = std::sync::Mutex::new(None);
     let shared = &states;
-    let seq = &sequential;
+    let rf = &refs;
+    let recs = &all;
     std::thread::scope(|sc| {
         for t in 0..threads {
             let mism = &mismatches;
             let exps = &expansions;
+            let fb = &first_bad;
             sc.spawn(move || {
                 let n = shared.len();
                 for k in 0..n {
-                    // every thread walks the shared vector in its own order
-                    let i = (k * (2 * t + 1) + t * 7) % n;
-                    let got = expand(&shared[i]);
-                    exps.fetch_add(1, std::sync::atomic::Ordering::Relaxed);
-                    if got != seq[i] {
-                        mism.fetch_add(1, std::sync::atomic::Ordering::Relaxed);
+                    // even workers walk the vector in order (families back to back, from different offsets),
+                    // odd workers with their own stride
+                    let i = if t % 2 == 0 { (k + t * n / threads.max(1)) % n } else { (k * (2 * t + 1) + t * 7) % n };
+                    for q in perm(t * 1_000_003 + k) {
+                        let got = query(&shared[i], q);
+                        exps.fetch_add(1, Ordering::Relaxed);
+                        if got != rf[i][q] {
+                            mism.fetch_add(1, Ordering::Relaxed);
+                            let mut g = fb.lock().unwrap();
+                            if g.is_none() {
+                                *g = Some(format!(
+                                    "worker {} query {} on shared state {} (start {:?}, {} actions: {}) gave\n  {}\nfresh twin on a new thread gave\n  {}",
+                                    t,
+                                    q,
+                                    i,
+                                    recs[i].start,
+                                    recs[i].path.len(),
+                                    recs[i].path.iter().map(enc_action).collect::<Vec<_>>().join(" "),
+                                    &got[..got.len().min(400)],
+                                    &rf[i][q][..rf[i][q].len().min(400)]
+                                ));
+                            }
+                        }
                     }
                     // clone and drop the shared state (touches the Arc counts of the history)
                     let c = shared[i].clone();
@@ -98,48 +315,71 @@ fn main() {
         }
     });
     // simultaneous FIRST queries on freshly built states (a lazily initialised cache would be raced here):
-    // every round builds a fresh state, all threads wait at a barrier and then query it at once.
+    // every round builds a fresh state, all threads wait at a barrier and then query it at once,
+    // each thread starting with a different query.
     let immobilised = [
         "7g\n +-----------------+\n8|               r |\n7|                 |\n6|     x     x     |\n5|                 |\n4|                 |\n3|     x     x     |\n2| c               |\n1| R c             |\n +-----------------+\n   a b c d e f g h\n",
         "7s\n +-----------------+\n8| r D             |\n7| D               |\n6|     x     x     |\n5|                 |\n4|                 |\n3|     x     x     |\n2|                 |\n1|               R |\n +-----------------+\n   a b c d e f g h\n",
     ];
-    let rounds = nstates.max(200) * 4;
-    let race_mismatch = std::sync::atomic::AtomicUsize::new(0);
+    let rounds = nstates.max(200) * 2;
+    let race_mismatch = AtomicUsize::new(0);
     for r in 0..rounds {
-        let fresh: GameState = if r % 2 == 0 { immobilised[(r / 2) % 2].parse().unwrap() } else { states[r % states.len()].clone() };
-        let expect_state: GameState = if r % 2 == 0 { immobilised[(r / 2) % 2].parse().unwrap() } else { states[r % states.len()].clone() };
-        let expect = (term_str(&expect_state.is_terminal()).to_string(), expect_state.valid_actions().len(), expect_state.transposition_hash());
+        let (fresh, expect): (GameState, Vec<String>) = if r % 2 == 0 {
+            let rec = Recipe { start: immobilised[(r / 2) % 2].to_string(), path: vec![] };
+            (rec.build(), (0..7).map(|k| query(&rec.build(), k)).collect())
+        } else {
+            let i = r % all.len();
+            (all[i].build(), refs[i][..7].to_vec())
+        };
         let barrier = std::sync::Barrier::new(threads);
         let fr = &fresh;
         let ex = &expect;
         let rm = &race_mismatch;
         let exps = &expansions;
+        let fb = &first_bad;
         std::thread::scope(|sc| {
-            for _ in 0..threads {
+            for t in 0..threads {
                 let b = &barrier;
                 sc.spawn(move || {
                     b.wait();
-                    let got = (term_str(&fr.is_terminal()).to_string(), fr.valid_actions().len(), fr.transposition_hash());
-                    exps.fetch_add(1, std::sync::atomic::Ordering::Relaxed);
-                    if got != *ex {
-                        rm.fetch_add(1, std::sync::atomic::Ordering::Relaxed);
+                    for j in 0..7 {
+                        let q = (j + t) % 7;
+                        let got = query(fr, q);
+                        exps.fetch_add(1, Ordering::Relaxed);
+                        if got != ex[q] {
+                            rm.fetch_add(1, Ordering::Relaxed);
+                            let mut g = fb.lock().unwrap();
+                            if g.is_none() {
+                                *g = Some(format!("simultaneous first queries, round {}: query {} gave {} but a fresh twin gives {}", r, q, got, ex[q]));
+                            }
+                        }
                     }
                 });
             }
         });
     }
-    mismatches.fetch_add(race_mismatch.load(std::sync::atomic::Ordering::Relaxed), std::sync::atomic::Ordering::Relaxed);
+    mismatches.fetch_add(race_mismatch.load(Ordering::Relaxed), Ordering::Relaxed);
     // the shared states are unchanged afterwards
-    let after: Vec<String> = states.iter().map(expand).collect();
-    let changed = after.iter().zip(sequential.iter()).filter(|(a, b)| a != b).count();
+    let mut changed = 0;
+    for (i, s) in states.iter().enumerate() {
+        for q in 0..NQ {
+            if query(s, q) != refs[i][q] {
+                changed += 1;
+                break;
+            }
+        }
+    }
+    if let Some(m) = first_bad.lock().unwrap().as_ref() {
+        eprintln!("{}", m);
+    }
     println!(
         "{{\"threads\": {}, \"states\": {}, \"expansions\": {}, \"mismatches\": {}, \"changed_after\": {}}}",
         threads,
         states.len(),
-        expansions.load(std::sync::atomic::Ordering::Relaxed),
-        mismatches.load(std::sync::atomic::Ordering::Relaxed),
+        expansions.load(Ordering::Relaxed),
+        mismatches.load(Ordering::Relaxed),
         changed
     );
-    let bad = mismatches.load(std::sync::atomic::Ordering::Relaxed) + changed;
+    let bad = mismatches.load(Ordering::Relaxed) + changed;
     std::process::exit(if bad == 0 { 0 } else { 1 });
 }
